@@ -73,6 +73,16 @@ def build():
     return code
 
 
+def attach(root, code, wroot):
+    """a child interpreter joins an existing scratch copy (it never owns or removes it)"""
+    _state.update(root=root, owner=-1, code=code, wroot=wroot, wpid=os.getpid())
+    if code not in sys.path:
+        sys.path.insert(0, code)
+    sys.dont_write_bytecode = True
+    warnings.filterwarnings("ignore", category=SyntaxWarning)
+    return code
+
+
 def cleanup():
     if _state["root"] and _state["owner"] == os.getpid():
         shutil.rmtree(_state["root"], ignore_errors=True)
